@@ -331,4 +331,127 @@ Corollary wrap_phase1_events_ok W infos lines :
   Forall (ev_ok (mk_lviews infos lines)) (Dlog (wrap_phase1 W infos lines)).
 Proof. apply (wrap_phase_events_ok W infos lines lv_top sst_init). split; [apply cache_ok_init|constructor]. Qed.
 
+
+(* ------------------------------------------------------------------ *)
+(* 4. from the events to the counters: the last decision of a token wins *)
+Lemma upd_ftok_nth g : forall l i j,
+  nth_error (upd_ftok i g l) j = if Nat.eqb i j then option_map (fun p : ftoken => (fst p, g (snd p))) (nth_error l j) else nth_error l j.
+Proof.
+  induction l as [|[tok f] r IH]; intros i j.
+  - destruct i; cbn [upd_ftok]; destruct (Nat.eqb _ j); destruct j; reflexivity.
+  - destruct i as [|i]; destruct j as [|j]; cbn [upd_ftok nth_error Nat.eqb]; try reflexivity. apply IH.
+Qed.
+
+Definition decs_for (t : nat) (p : list (nat * decision)) : list decision :=
+  map snd (filter (fun pd : nat * decision => Nat.eqb (fst pd) t) p).
+
+Lemma apply_plan_nth : forall p l t,
+  nth_error (apply_plan p l) t = option_map (fun tf : ftoken => (fst tf, fold_left apply_decision (decs_for t p) (snd tf))) (nth_error l t).
+Proof.
+  unfold apply_plan. induction p as [|pd p IH]; intros l t.
+  - cbn. destruct (nth_error l t) as [[tok f]|]; reflexivity.
+  - cbn [fold_left]. rewrite IH, upd_ftok_nth. unfold decs_for. cbn [filter].
+    destruct (Nat.eqb (fst pd) t); [|reflexivity]. cbn [map fold_left]. destruct (nth_error l t) as [[tok f]|]; reflexivity.
+Qed.
+
+Lemma zero_line_starts_nth l t : forall tok f, nth_error (zero_line_starts l) t = Some (tok, f) ->
+  exists f0, nth_error l t = Some (tok, f0) /\ f_nl f = f_nl f0.
+Proof.
+  unfold zero_line_starts. intros tok f H. rewrite nth_error_map in H. destruct (nth_error l t) as [[tok0 f0]|]; [|discriminate].
+  cbn [option_map] in H. destruct (0 <? f_nl f0); injection H as <- <-; exists f0; split; reflexivity.
+Qed.
+
+Definition is_break_dec (d : decision) : bool := match d with DBreak _ _ _ => true | DContinue => false end.
+
+Lemma clamp12_pos n : 0 < clamp12 n.
+Proof. unfold clamp12. destruct (n <? 1) eqn:A; [lia|]. destruct (2 <? n); [lia|]. apply N.ltb_ge in A. lia. Qed.
+
+Lemma last_decision_nl ds d f : (0 <? f_nl (fold_left apply_decision (ds ++ [d]) f)) = is_break_dec d.
+Proof.
+  rewrite fold_left_app. cbn [fold_left]. destruct d as [first ind cont|]; cbn [apply_decision f_nl is_break_dec]; [|reflexivity].
+  apply N.ltb_lt. destruct first; [apply clamp12_pos|lia].
+Qed.
+
+Lemma plan_of_events_in t d : forall evs, In (t, d) (plan_of_events evs) ->
+  exists tok dd lll fst, In (Ev_D tok dd lll fst) evs /\ N.to_nat tok = t
+                         /\ d = match dd with Some (f, i, c) => DBreak f i c | None => DContinue end.
+Proof.
+  induction evs as [|e r IH]; intros H; [destruct H|]. destruct e as [ln o|tok dd lll fst|n]; cbn [plan_of_events] in H.
+  - destruct (IH H) as (a & b & c & dd' & H1 & H2). exists a, b, c, dd'. split; [right; exact H1|exact H2].
+  - destruct dd as [[[f i] c]|]; destruct H as [H|H];
+      try (injection H as <- <-; exists tok; eexists; exists lll, fst; split; [left; reflexivity|split; reflexivity]);
+      destruct (IH H) as (a & b & c' & dd' & H1 & H2); exists a, b, c', dd'; (split; [right; exact H1|exact H2]).
+  - destruct (IH H) as (a & b & c & dd' & H1 & H2). exists a, b, c, dd'. split; [right; exact H1|exact H2].
+Qed.
+
+(* the invariant a record carries is get_formatting_invariant on the token types of the file *)
+Lemma mk_recs_inv tt kids line_index : forall toks prevtok win stacks r,
+  In r (mk_recs tt toks prevtok win stacks kids line_index) ->
+  exists cd, tr_inv r = formatting_invariant (if tr_gidx r =? 0 then None else option_map ti_ty (ti_get tt (tr_gidx r - 1)))
+                                             (option_map ti_ty (ti_get tt (tr_gidx r))) cd.
+Proof.
+  induction toks as [|g rest IH]; intros prevtok win stacks r H; [destruct H|]. cbn [mk_recs] in H. destruct H as [<-|H]; [|exact (IH _ _ _ r H)].
+  cbn [tr_inv tr_gidx]. eexists. reflexivity.
+Qed.
+
+Lemma mk_lviews_inv infos lines lv r : In lv (mk_lviews infos lines) -> In r (lv_recs lv) ->
+  exists cd, tr_inv r = formatting_invariant (if tr_gidx r =? 0 then None else option_map ti_ty (nth_error infos (N.to_nat (tr_gidx r - 1))))
+                                             (option_map ti_ty (nth_error infos (N.to_nat (tr_gidx r)))) cd.
+Proof.
+  unfold mk_lviews. intros Hlv Hr. rewrite <- !ti_get_infos. revert Hlv.
+  generalize (get_line_children (map iline_of lines)) 0%nat. intros kids.
+  induction (map iline_of lines) as [|l rr IH]; intros i H; [destruct H|]. cbn [mk_lviews_from] in H. destruct H as [<-|H]; [|exact (IH (S i) H)].
+  cbn [mk_lview lv_recs] in Hr. eapply mk_recs_inv. exact Hr.
+Qed.
+
+(* the final counters after phase 1: for every token the wrapper decided, "starts a line" is what the invariant of the
+   token (in the line that decided it last) demands *)
+Theorem phase1_final_breaks W infos lines l t tok f :
+  let evs := rev (ss_log (wrap_phase1 W infos lines)) in
+  nth_error (zero_line_starts (apply_plan (plan_of_events evs) l)) t = Some (tok, f) ->
+  decs_for t (plan_of_events evs) <> [] ->
+  exists cd, respects (formatting_invariant (match t with O => None | S p => option_map ti_ty (nth_error infos p) end)
+                                            (option_map ti_ty (nth_error infos t)) cd) (0 <? f_nl f) = true.
+Proof.
+  intros evs Hn Hd.
+  destruct (zero_line_starts_nth _ t tok f Hn) as (f1 & Hn1 & Hnl). rewrite apply_plan_nth in Hn1.
+  destruct (nth_error l t) as [[tok0 f0]|]; [|discriminate]. cbn [option_map fst snd] in Hn1. injection Hn1 as _ <-.
+  destruct (exists_last Hd) as (ds & d & Hds). rewrite Hds in Hnl. rewrite Hnl, last_decision_nl.
+  assert (Hin : In (t, d) (plan_of_events evs)).
+  { assert (H : In d (decs_for t (plan_of_events evs))) by (rewrite Hds; apply in_or_app; right; left; reflexivity).
+    unfold decs_for in H. apply in_map_iff in H. destruct H as ([t' d'] & Hd' & Hf). apply filter_In in Hf. destruct Hf as (Hf & Heq).
+    cbn [fst snd] in *. apply PeanoNat.Nat.eqb_eq in Heq. subst. exact Hf. }
+  destruct (plan_of_events_in t d evs Hin) as (tk & dd & lll & fst & Hev & Htk & Hdd).
+  pose proof (wrap_phase1_events_ok W infos lines) as Hall. rewrite Forall_forall in Hall.
+  assert (Hev' : In (Ev_D tk dd lll fst) (Dlog (wrap_phase1 W infos lines))).
+  { unfold Dlog. apply filter_In. split; [|reflexivity]. apply in_rev. exact Hev. }
+  destruct (Hall _ Hev') as (lv & r & Hlv & Hr & Hg & Hresp).
+  destruct (mk_lviews_inv infos lines lv r Hlv Hr) as (cd & Hinv). exists cd.
+  rewrite Hg in Hinv. rewrite Htk in Hinv.
+  assert (Hprev : (if tk =? 0 then None else option_map ti_ty (nth_error infos (N.to_nat (tk - 1))))
+                  = match t with O => None | S p => option_map ti_ty (nth_error infos p) end).
+  { rewrite <- Htk. destruct (tk =? 0) eqn:E0.
+    - apply N.eqb_eq in E0. rewrite E0. reflexivity.
+    - apply N.eqb_neq in E0. destruct (N.to_nat tk) as [|p] eqn:Ep; [lia|]. replace (N.to_nat (tk - 1)) with p by lia. reflexivity. }
+  rewrite Hprev in Hinv. rewrite <- Hinv. subst d.
+  destruct (tr_inv r) as [[]|], dd as [[[? ?] ?]|]; cbn in *; try reflexivity; contradiction.
+Qed.
+
+(* the comment clauses do not depend on the line that decided the token *)
+Lemma formatting_invariant_comment_clauses prev cur cd :
+  prev <> None ->
+  (match cur with Some (TT_Comment (CoK_InlineLine | CoK_InlineBlock)) => True | _ => False end ->
+     formatting_invariant prev cur cd = Some DR_MustNotBreak) /\
+  (match cur with Some (TT_Comment (CoK_IndividualLine | CoK_IndividualBlock | CoK_MultilineBlock)) | Some (TT_TextLiteral TK_MultiLine) => True | _ => False end ->
+     formatting_invariant prev cur cd = Some DR_MustBreak) /\
+  (match prev with Some (TT_Comment (CoK_IndividualLine | CoK_InlineLine | CoK_MultilineBlock)) | Some (TT_TextLiteral TK_Unterminated) => True | _ => False end ->
+   match cur with Some (TT_Comment (CoK_InlineLine | CoK_InlineBlock)) => False | _ => True end ->
+     formatting_invariant prev cur cd = Some DR_MustBreak).
+Proof.
+  intros Hp. destruct prev as [p|]; [|congruence].
+  repeat split; intros H; [| |intros H'];
+    destruct p as [?| |?|[]|?|?| |[]| |]; destruct cur as [[?| |?|[]|?|?| |[]| |]|]; try destruct H; try destruct H'; destruct cd; reflexivity.
+Qed.
+
 Print Assumptions wrap_phase1_events_ok.
+Print Assumptions phase1_final_breaks.
